@@ -42,6 +42,15 @@ var repoDir = func() string {
 	return "/repo"
 }()
 
+// evidenceDir is /verif/evidence; VERIF_EVIDENCE_DIR redirects it for experiments on deliberately broken
+// copies of go-cty (tools/run_seeded.sh), so that they never overwrite the evidence of the real tree.
+func evidenceDir() string {
+	if d := os.Getenv("VERIF_EVIDENCE_DIR"); d != "" {
+		return d
+	}
+	return filepath.Join(verifDir, "evidence")
+}
+
 var verifDir = func() string {
 	if d := os.Getenv("VERIF_DIR"); d != "" {
 		return d
@@ -651,7 +660,7 @@ func cmdCheck(args []string) {
 	fmt.Printf("verif: property=%s tier=%s VERIF_SEED=%d workers=%d\n", prop, tier, seed, workers)
 	t0 := time.Now()
 	os.MkdirAll(filepath.Join(verifDir, "replays"), 0o755)
-	os.MkdirAll(filepath.Join(verifDir, "evidence"), 0o755)
+	os.MkdirAll(evidenceDir(), 0o755)
 	ks, err := loadKnown()
 	if err != nil {
 		die(2, "%v", err)
@@ -1043,7 +1052,7 @@ func writeEvidence(prop, tier string, seed uint64, cfg *propCfg, s *scratch, agg
 	if err != nil {
 		return err
 	}
-	return os.WriteFile(filepath.Join(verifDir, "evidence", prop+".json"), b, 0o644)
+	return os.WriteFile(filepath.Join(evidenceDir(), prop+".json"), b, 0o644)
 }
 
 func cmdReplay(args []string) {
